@@ -640,7 +640,7 @@ func ruleC06Snapstep(c *Ctx) {
 		}
 		c.Guard(rule, fn, CallsTo(fn, fRep+"rmDisk"), "remove old head", nil,
 			atom("new head created", "+"+fRep+"createNewHead($0,$0.info.Head,$1,$2)#2 -nil ==0"),
-			atom("volume.meta committed", "+"+fRep+`encodeToFile($0,&var(info),"volume.meta") -nil ==0`))
+			atom("volume.meta committed", "+"+fRep+`encodeToFile($0,&var(replica.Info),"volume.meta") -nil ==0`))
 		rl := CallsTo(fn, fRep+"Reload")
 		if len(rl) == 1 && callRender(R, rl[0]) == fRep+"Reload($0,true)" {
 			c.OK(rule, FnName(fn)+" | reload with preload", c.P.InstrPos(rl[0]), "r.Reload(true)", false)
@@ -694,14 +694,14 @@ func ruleC07Merge(c *Ctx) {
 		c.Bad(rule, FnName(fn)+" | merge store", "", fmt.Sprintf("expected exactly one merge store into s.r.volume.location, found %d", len(st)), nil)
 		return
 	}
-	if v := R.V(st[0].(*ssa.Store).Val); v != "var(volume).location[*]" {
+	if v := R.V(st[0].(*ssa.Store).Val); v != "var(replica.diffDisk).location[*]" {
 		c.Bad(rule, FnName(fn)+" | merge value", c.P.InstrPos(st[0]), "live map entry receives "+v+", expected the preloaded entry", nil)
 	} else {
 		c.OK(rule, FnName(fn)+" | merge value", c.P.InstrPos(st[0]), "s.r.volume.location[offset] = volume.location[offset]", false)
 	}
 	c.Guard(rule, fn, st, "overwrite live entry", lockOrUnlock,
-		atom("live <= preloaded", "-$0.r.volume.location[*] +var(volume).location[*] >=0"),
-		atom("preloaded entry known", "+var(volume).location[*] !=0"),
+		atom("live <= preloaded", "-$0.r.volume.location[*] +var(replica.diffDisk).location[*] >=0"),
+		atom("preloaded entry known", "+var(replica.diffDisk).location[*] !=0"),
 		needWLock("server lock (re)taken"),
 		okcall("replica.PreloadLunMap"))
 	c.Guard(rule, fn, CallsTo(fn, "replica.sendToCreateHole"), "request hole", lockOrUnlock,
@@ -709,7 +709,7 @@ func ruleC07Merge(c *Ctx) {
 	// the private copy: location re-allocated before preload
 	var alloc []ssa.Instruction
 	eachInstr(fn, func(in ssa.Instruction) {
-		if s, ok := in.(*ssa.Store); ok && R.V(s.Addr) == "&var(volume).location" && strings.HasPrefix(R.V(s.Val), "makeslice(") {
+		if s, ok := in.(*ssa.Store); ok && R.V(s.Addr) == "&var(replica.diffDisk).location" && strings.HasPrefix(R.V(s.Val), "makeslice(") {
 			alloc = append(alloc, in)
 		}
 	})
